@@ -117,4 +117,52 @@ def gradient_user_derivatives(inp):
 
 
 # thorough tier (bounded native sweeps): (function, inputs, obligation of the open finding it reproduces or None)
-THOROUGH = [('gradient_vs_finite_difference', {}, None), ('gradient_two_time_grids', {}, None), ('gradient_user_derivatives', {}, None)]
+def gradient_with_caps(inp):
+    """process tensors that are CLOSED BY THEIR CAPS (exact ancilla environment whose final trace is kept in the cap tensors, not
+    absorbed into the last MPO tensor), and a second environment that is LONGER than the first (the gradient then runs over fewer steps
+    than that process tensor has): adjoint gradient of state_gradient against central finite differences of the forward dynamics"""
+    import oqupy
+    from replay.c03 import _ancilla_pt
+    sx, sy, sz = [oqupy.operators.sigma(c) for c in 'xyz']
+    dt = 0.2
+    env0 = np.array([[0.6, 0.1], [0.1, 0.4]])
+
+    def ham(a, b):
+        return 0.5 * a * sx + 0.5 * b * sy
+    psys = oqupy.ParameterizedSystem(ham)
+    rho0, target = oqupy.operators.spin_dm('z+'), oqupy.operators.spin_dm('y-')
+    rng = np.random.default_rng(5)
+    bad = []
+    for label, lens, closed in (('caps carry the trace', (3,), False), ('second environment longer than the first', (3, 5), True),
+                                ('caps carry the trace, second environment longer', (2, 4), False)):
+        pts = []
+        for k, L in enumerate(lens):
+            Hint = 0.9 * np.kron(sz, sx) + 0.5 * np.kron(sy, sz) if k == 0 else 0.7 * np.kron(sx, sx)
+            pts.append(_ancilla_pt(dt, L, Hint, 0.3 * sz, env0, close_last_bond=closed)[0])
+        n = lens[0]
+        params = rng.normal(size=(2 * n, 2))
+
+        def objective(p):
+            d = oqupy.state_gradient(system=psys, initial_state=rho0, target_derivative=target.T, process_tensors=pts, parameters=p,
+                                     progress_type='silent')['dynamics']
+            return np.trace(target @ d.states[-1]).real
+        try:
+            g = np.array(oqupy.state_gradient(system=psys, initial_state=rho0, target_derivative=target.T, process_tensors=pts, parameters=params,
+                                              progress_type='silent')['gradient']).real
+        except Exception as e:       # noqa
+            bad.append({'case': label, 'process tensor lengths': list(lens), 'exception': type(e).__name__ + ': ' + str(e)[:100]})
+            continue
+        fd, h = np.zeros_like(g), 1e-5
+        for a in range(params.shape[0]):
+            for b in range(params.shape[1]):
+                p1, p2 = params.copy(), params.copy()
+                p1[a, b] += h
+                p2[a, b] -= h
+                fd[a, b] = (objective(p1) - objective(p2)) / (2 * h)
+        err = float(np.abs(g - fd).max())
+        if err > 1e-6:
+            bad.append({'case': label, 'process tensor lengths': list(lens), 'max|grad - finite difference|': err, 'max|grad|': float(np.abs(fd).max())})
+    return {'violates': bool(bad), 'detail': bad[:4]}
+
+
+THOROUGH = [('gradient_vs_finite_difference', {}, None), ('gradient_two_time_grids', {}, None), ('gradient_user_derivatives', {}, None), ('gradient_with_caps', {}, None)]
